@@ -1,10 +1,10 @@
 package main
 
 import (
-	"io"
-	"errors"
 	"encoding/json"
+	"errors"
 	"fmt"
+	"io"
 
 	"go.uber.org/zap"
 	"go.uber.org/zap/zapcore"
